@@ -1,4 +1,4 @@
-//! `caches`: the REAL `PageCache`, `LeafCache` and `PageSet` (hook H20, `nomt::verif_api::caches`) driven through
+//! `caches`: the REAL `PageCache`, `LeafCache` and `PageSet` (hook H21, `nomt::verif_api::caches`) driven through
 //! generated operation sequences, line by line against the Lean mirror (`nomt_model caches`,
 //! `lean/NomtModel/Store/CacheModel.lean` — the definitions the theorems of `Props/C13_Caches.lean` are about).
 //!
